@@ -39,6 +39,11 @@ CLAIMED = {
    text="The array-length x index grid is swept completely; generated lookup paths over nested bindings and expression trees are compared with the reference model in normal and strict mode; every standard filter takes part in generated pipelines that must render exactly like their one-step-at-a-time assign decomposition; programs printed under two whitespace policies must render identically; unknown filters and excess arguments must be errors.",
    note="Trusted: the reference lookup/printing model; the harness's filter arity table only steers generation (the relation itself is between two executions of the implementation). Unspecified: float indices, size of a string through property syntax, printing arrays/maps/ranges, exponent notation.",
    ref="DESIGN.md 7.C08"),
+ "C15": dict(
+   technique="property-based testing: bounded-exhaustive arrays x representations x filters plus rapid-generated arrays, records and filter chains against reference functions; input-unchanged invariant by deep fingerprint; representation invariance as a metamorphic relation",
+   text="All arrays up to length 3 (4 in the thorough tier) over three small alphabets with and without nil, in every Go representation, through every array filter, then random arrays, arrays of maps (sort/map by key) and chains; results are compared with reference functions, the input must iterate identically afterwards and its Go value's deep fingerprint must not change, and each representation must render like the equal []any.",
+   note="Trusted: the reference functions in c15_test.go and hx/model.go, hx.Fingerprint. Unspecified: position of nil elements and order among ties in sort, sort of mixed kinds, join over nested containers.",
+   ref="DESIGN.md 7.C15"),
 }
 
 REASON_PENDING = "check not built yet in this snapshot of /verif (planned: see DESIGN.md section 7); nothing is claimed for it"
